@@ -36,7 +36,7 @@ func VInv(m *Map[int, int]) {
 func VHMapStep() {
 	keys, vals := maps.VPairs(true)
 	m := VGMapOf(keys, vals)
-	maps.VMapStep(m, keys, vals, maps.VKind{Bidi: true, Sorted: true, GetKey: m.GetKey, Inv: func() { VInv(m) }})
+	maps.VMapStep(m, keys, vals, maps.VKind{Name: "TreeBidiMap", Bidi: true, Sorted: true, GetKey: m.GetKey, Inv: func() { VInv(m) }})
 }
 
 func VHIter() {
